@@ -397,9 +397,11 @@ def spans_of(word, sp, Tb, summ):
 
 
 def replay(d):
-    if d['input'].get('claim') in ('lexical', 'lexical_set', 'contextual', 'history'):
+    if d['input'].get('claim') in ('lexical', 'lexical_set', 'contextual', 'history', 'n783'):
         from . import c03lex
         boot.load_plain()
+        if d['input']['claim'] == 'n783':
+            return c03lex.replay_783(d)
         if d['input']['claim'] == 'history':
             return c03lex.replay_h(d)
         if d['input']['claim'] == 'contextual':
@@ -587,6 +589,7 @@ def main():
     c03lex.run_leg_g(run, Tb, G, sp, ref, gwords, ref_accepts)
     # leg H: parse(text) gives the same verdict and tree whatever was parsed before in the same process (replay level)
     c03lex.run_leg_h(run)
+    c03lex.run_leg_783(run)
     run.leg('per_nonterminal', **{k: (v if not isinstance(v, list) else v[:10]) for k, v in nt_stats.items()})
     # validation of LR-SAT against the real engine on the enumerated accepted strings (prediction == engine)
     val = _validate(Tb, G, summ, sp, ref, 3 if not th else 4)
